@@ -67,6 +67,18 @@ func parseAndCompare(run *core.Run, txt string, modular bool, exp *openfgav1.Aut
 	}
 	run.Eval(1)
 	if err != nil {
+		// guard of the renderer (DESIGN §3-G2): the rendering must be derivable from the grammar as it is on disk;
+		// if it is not, renderer and grammar disagree - a harness problem, never a violation
+		if g, gerr := parserGrammar(); gerr == nil {
+			tk, lexErrs := lexNames(prepass(txt))
+			if lexErrs > 0 || !g.Accepts("main", tk) {
+				run.Count("renderings_not_derivable_from_grammar_on_disk", 1)
+				if run.Counter("renderings_not_derivable_from_grammar_on_disk") == 1 {
+					run.Inconclusive("a rendering is rejected by the parser and is not derivable from OpenFGAParser.g4 as it is on disk: renderer and grammar disagree: %q", txt)
+				}
+				return false
+			}
+		}
 		run.Violation("grammatical-layout-rejected", c, "accepted", err.Error())
 		return false
 	}
